@@ -81,6 +81,11 @@ Example ex_doc :
   = [36;45;97;45;97;45;45;45;97;120].
 Proof. vm_compute. reflexivity. Qed.
 
+(* ... and it rejects ONLY such templates: check accepts a template iff every step is ok *)
+Theorem C12_check_complete : forall x template names n,
+  Forall (step_ok names n) (steps x template) -> check x template names n = None.
+Proof. exact check_complete. Qed.
+
 (* ---- the Python-style expander and numeric references ---- *)
 (* `\g<name>` refers to name *)
 Theorem C12_python_named : forall name rest, name <> [] -> Forall idb name ->
@@ -142,3 +147,4 @@ Print Assumptions C12_default_stray.
 Print Assumptions C12_named_number.
 Print Assumptions C12_number_in_range.
 Print Assumptions C12_number_absent.
+Print Assumptions C12_check_complete.
